@@ -215,7 +215,7 @@ def model_check(rep, wd, tier):
 
 
 def run(rep, wd, tier, seed):
-    rep.assumptions += ['TLC 1.8 evaluates the TLA+ text correctly', 'file objects are io.BytesIO']
+    rep.assumptions += ['TLC 1.8 evaluates the TLA+ text correctly', 'file objects: in-memory buffers, real files, pipes-like streams, gzip file objects (harness/drv.py)']
     model_check(rep, wd, tier)
     prog, scheds = schedules(rep, wd, tier, seed)
     rep.extra['schedules_replayed'] = len(scheds)
